@@ -10,8 +10,13 @@ pub struct Campaign {
 }
 
 pub fn campaign(ctx: &Ctx, target: &str, seeds: &[Vec<u8>], runs: u64, max_time_s: u64) -> Result<Campaign, String> {
-    let corpus = ctx.scratch.join(format!("corpus_{target}"));
-    let art = ctx.scratch.join(format!("art_{target}"));
+    campaign_with(ctx, target, "", seeds, runs, max_time_s)
+}
+
+/// `mode`: value of SCCV_FUZZ_MODE for the `semantic` target (empty for the text targets)
+pub fn campaign_with(ctx: &Ctx, target: &str, mode: &str, seeds: &[Vec<u8>], runs: u64, max_time_s: u64) -> Result<Campaign, String> {
+    let corpus = ctx.scratch.join(format!("corpus_{target}{mode}"));
+    let art = ctx.scratch.join(format!("art_{target}{mode}"));
     std::fs::create_dir_all(&corpus).map_err(|e| e.to_string())?;
     std::fs::create_dir_all(&art).map_err(|e| e.to_string())?;
     for (i, s) in seeds.iter().enumerate() {
@@ -33,6 +38,9 @@ pub fn campaign(ctx: &Ctx, target: &str, seeds: &[Vec<u8>], runs: u64, max_time_
         .arg("-print_final_stats=1")
         .arg(format!("-artifact_prefix={}/", art.display()))
         .env("CARGO_NET_OFFLINE", "true")
+        .env("SCCV_FUZZ_MODE", mode)
+        .env("SCCV_FUZZ_TIER", ctx.tier.name())
+        .env("VERIF_ROOT", &ctx.root)
         .current_dir(&fuzz_dir)
         .output()
         .map_err(|e| format!("cargo fuzz: {e}"))?;
@@ -57,4 +65,47 @@ pub fn campaign(ctx: &Ctx, target: &str, seeds: &[Vec<u8>], runs: u64, max_time_
     }
     let tail: Vec<&str> = log.lines().rev().take(6).collect();
     Ok(Campaign { executed, artifacts, log_tail: tail.into_iter().rev().collect::<Vec<_>>().join("\n") })
+}
+
+/// A coverage-guided campaign of the `semantic` target in one mode; every saved artifact is
+/// re-run through `rerun` (the in-process oracle): a confirmed failure is returned as
+/// (buffer, failure), an unconfirmed one as an infrastructure error.
+pub fn semantic_phase(
+    ctx: &Ctx,
+    ev: &mut crate::runner::Evidence,
+    report: &mut crate::runner::Report,
+    mode: &str,
+    stream: u64,
+    sub: &str,
+    secs: u64,
+    rerun: &(dyn Fn(&[u8]) -> crate::runner::CaseResult + Sync),
+) {
+    use crate::runner::*;
+    if ctx.tier != Tier::Thorough || !report.violations.is_empty() {
+        return;
+    }
+    // SCCV_FUZZ_SECS shortens the campaigns (smoke tests of the machinery itself)
+    let secs = std::env::var("SCCV_FUZZ_SECS").ok().and_then(|v| v.parse().ok()).unwrap_or(secs);
+    let seeds = buffers(ctx.seed, stream, 200, 60, 1500);
+    match campaign_with(ctx, "semantic", mode, &seeds, 4_000_000, secs) {
+        Err(e) => report.infra_errors.push(e),
+        Ok(c) => {
+            ev.extra.insert(format!("libfuzzer_executed_units_{mode}"), serde_json::json!(c.executed));
+            if !ev.rule.contains("coverage-guided") {
+                ev.rule.push_str(" thorough: plus coverage-guided libFuzzer campaigns (target `semantic`) over the generators' choice buffers with the same oracle inside the target; every saved input is confirmed by the in-process oracle before it is reported.");
+            }
+            ev.evaluations += c.executed;
+            for a in &c.artifacts {
+                let r = rerun(a);
+                if let CaseResult::Fail(f) = &r {
+                    if report.violations.is_empty() {
+                        eprintln!("libFuzzer artifact ({mode}): {}", f.summary);
+                        report.violations.push(write_replay(ctx, sub, a, f));
+                    }
+                } else {
+                    report.infra_errors.push(format!("libFuzzer ({mode}) saved an input that the in-process oracle does not reproduce"));
+                }
+            }
+        }
+    }
 }
